@@ -22,6 +22,15 @@ twelve column orders, bound (first execution and cache hits), re-bound on one ca
 statement with changing list lengths, and through literal_execute; the oracle there is a
 Python model (no NULLs): a row matches iff its tuple of Python values is in the list.
 
+Further input classes (each with its own small fixture and a Python-model or hand-written
+reference, see the function docstrings): caller-owned list arguments mutated after the
+statement was built; expanding parameters WITHOUT a type (text(), untyped column()) x
+value kinds str / bytes / int / None / tuples / lists / Row objects / a custom Sequence,
+re-bound on one cached statement; column and user parameter names of the form
+<name>_<digits> next to IN lists (expanded-name collisions); tuple IN against untyped
+columns with value types that vary between executions of one statement shape; IN against
+a type with bind_expression().
+
 Other dialects (no server): the statement is executed on a recording DBAPI
 (postgresql+psycopg2, mysql+pymysql, mssql+pyodbc, oracle+oracledb) and the recorded
 (sql, params) judged structurally: the IN list holds exactly len(values) * arity
@@ -61,7 +70,10 @@ META = {
     "exhaustive": {"quick": True, "thorough": True},
     "require": ["truth_values_compared", "null_truth_values_seen", "empty_lists", "cache_hits", "rebinds_changed_length",
                 "fake_statements_judged", "empty_fragment_transplants",
-                "typed_tuple_cases", "typed_tuple_rows_matched", "typed_tuple_rebinds_changed_length"],
+                "typed_tuple_cases", "typed_tuple_rows_matched", "typed_tuple_rebinds_changed_length",
+                "mutated_argument_cases", "untyped_cases", "untyped_bytes_cases", "untyped_cache_hits",
+                "name_collision_cases", "name_collision_rows_matched", "heterogeneous_tuple_cases",
+                "heterogeneous_tuple_cache_hits", "bind_expression_type_cases"],
     "assumptions": ["SQLite evaluates scalar =, AND, OR, NOT under standard three-valued logic"],
 }
 
@@ -175,6 +187,11 @@ def run(ctx):
     try:
         _run_sqlite(ctx, rig, sa)
         _run_typed_tuples(ctx, rig, sa)
+        _run_mutated_arguments(ctx, rig, sa)
+        _run_untyped(ctx, rig, sa)
+        _run_name_collisions(ctx, rig, sa)
+        _run_heterogeneous_untyped_tuples(ctx, rig, sa)
+        _run_bind_expression_type(ctx, rig, sa)
         _run_fake(ctx, rig, sa)
     finally:
         rig.close()
@@ -293,6 +310,472 @@ def _run_typed_tuples(ctx, rig, sa):
     finally:
         md.drop_all(conn)
         conn.commit()
+
+
+# ---------------------------------------------------------------------------
+# caller-owned mutable arguments, mutated after the statement was built
+# ---------------------------------------------------------------------------
+MUTATIONS = ("clear", "append_hit", "append_null", "refill", "pop", "reverse_extend")
+
+
+def _mutate(buf, how, arity):
+    hit = 2 if arity == 1 else (2, 2)
+    null = None if arity == 1 else (None, None)
+    if how == "clear":
+        buf.clear()
+    elif how == "append_hit":
+        buf.append(hit)
+    elif how == "append_null":
+        buf.append(null)
+    elif how == "refill":
+        buf.clear()
+        buf.extend([3 if arity == 1 else (3, 3)])
+    elif how == "pop":
+        if buf:
+            buf.pop()
+    elif how == "reverse_extend":
+        buf.reverse()
+        buf.extend([1 if arity == 1 else (1, 2)])
+
+
+def _run_mutated_arguments(ctx, rig, sa):
+    """``col.in_(buf)`` must keep the values it was BUILT with: the caller clears / refills /
+    appends to ``buf`` (a list; for tuple IN a list of tuples or of lists) afterwards, then
+    the statement is executed bound, rendered with literal_binds, and one statement object
+    is executed, the buffer mutated again, and executed again (re-bound cached form).
+    Reference = explicit OR-of-equalities over the snapshot taken at construction."""
+    idx = 0
+    for arity in (1, 2):
+        lists = [[], [1], [1, 2], [2, None], [1, 1, 2]] if arity == 1 else [[], [(1, 2)], [(1, 2), (2, 2)], [(1, None), (2, 1)]]
+        for values in lists:
+            for as_lists in ((False, True) if arity == 2 else (False,)):
+                for form in ("in", "not_in", "inv_in"):
+                    for how in MUTATIONS:
+                        for delivery in ("bound", "literal_binds", "re-executed"):
+                            idx += 1
+                            if not ctx.mine(idx):
+                                continue
+                            if not ctx.budget_ok():
+                                return
+                            snapshot = list(values)
+                            buf = [list(v) for v in values] if as_lists else list(values)
+                            expr = rig.in_expr(arity, form, buf)
+                            st = rig.statement("select", expr)
+                            ref = rig.ref_expr(arity, form, snapshot)
+                            want = rig.raw(rig.conn.execute(sa.select(rig.m.c.id, ref.label("v")).order_by(rig.m.c.id)))
+                            desc = {"arity": arity, "values": snapshot, "element_kind": "list" if as_lists else "tuple/scalar",
+                                    "form": form, "mutation": how, "delivery": delivery}
+                            if not snapshot and delivery == "literal_binds" and arity > 1:
+                                continue  # empty tuple IN rendered literally is judged in the main workload
+                            sql = None
+                            try:
+                                if delivery == "re-executed":
+                                    first = rig.raw(rig.conn.execute(st))
+                                    _mutate(buf, how, arity)
+                                    res = rig.conn.execute(st)
+                                    sql = res.context.statement
+                                    got = rig.raw(res)
+                                    if first != want:
+                                        got = first
+                                else:
+                                    _mutate(buf, how, arity)
+                                    if delivery == "bound":
+                                        res = rig.conn.execute(st)
+                                        sql = res.context.statement
+                                        got = rig.raw(res)
+                                    else:
+                                        sql = str(st.compile(rig.eng, compile_kwargs={"literal_binds": True}))
+                                        got = rig.raw(rig.conn.exec_driver_sql(sql))
+                            except (sa.exc.SQLAlchemyError, NotImplementedError) as e:
+                                ctx.violation(f"sqlite-mutated-argument-error:{'tuple' if arity > 1 else 'scalar'}-{delivery}",
+                                              f"{type(e).__name__}: {str(e)[:200]}", dict(desc, sql=sql))
+                                continue
+                            ctx.case(desc, nontrivial=True)
+                            ctx.count("mutated_argument_cases")
+                            if got != want:
+                                diff = next(((g, w) for g, w in itertools.zip_longest(got, want) if g != w), None)
+                                ctx.violation(
+                                    f"sqlite-mutated-argument:{'tuple' if arity > 1 else 'scalar'}-{delivery}",
+                                    f"{form} built from {snapshot!r}, argument list then mutated by '{how}' (now {buf!r}), {delivery}: "
+                                    f"first differing row got={diff[0]} want={diff[1]} :: {sql}",
+                                    dict(desc, after_mutation=repr(buf), sql=sql, got=got[:6], want=want[:6]),
+                                )
+
+
+# ---------------------------------------------------------------------------
+# expanding parameters WITHOUT a type
+# ---------------------------------------------------------------------------
+class Seq:
+    """a Sequence that is neither tuple nor list (a tuple-IN member may be any Sequence)"""
+
+    def __init__(self, *items):
+        self.items = items
+
+    def __len__(self):
+        return len(self.items)
+
+    def __getitem__(self, i):
+        return self.items[i]
+
+    def __iter__(self):
+        return iter(self.items)
+
+    def __repr__(self):
+        return "Seq%r" % (self.items,)
+
+
+import collections.abc as _abc  # noqa: E402
+
+_abc.Sequence.register(Seq)
+
+
+def _kind(values):
+    ks = {type(v).__name__ for v in values if v is not None}
+    k = "empty" if not values else ("mixed" if len(ks) > 1 else (ks.pop() if ks else "null"))
+    return k + ("+null" if None in values and values else "")
+
+
+def _run_untyped(ctx, rig, sa):
+    """IN / NOT IN through an expanding parameter that has NO type: ``text("... IN :v")``,
+    untyped ``column("data")``; values of kind str / bytes (one byte, longer, mixed lengths)
+    / int / None / mixtures, and for the tuple form tuples, lists, Row objects and a custom
+    Sequence.  Every statement object is executed with the whole value sequence in turn
+    (re-binding one cached compiled form across value kinds).  Reference: the explicit OR of
+    ``data = ?`` written here and executed through the raw DBAPI connection."""
+    conn = rig.conn
+    conn.exec_driver_sql("CREATE TABLE u (id INTEGER PRIMARY KEY, data, k)")
+    rows = [(1, b"a", 1), (2, b"b", 2), (3, b"ab", 1), (4, None, 2), (5, "a", 1), (6, 97, 2), (7, "ab", 1), (8, 1, 2), (9, 98, None), (10, b"", 1)]
+    conn.exec_driver_sql("INSERT INTO u (id, data, k) VALUES (?, ?, ?)", rows)
+    conn.commit()
+    u = sa.table("u", sa.column("id"), sa.column("data"), sa.column("k"))
+    bp = lambda: sa.bindparam("v", expanding=True)  # noqa: E731
+    stmts = {
+        "text-in": (sa.text("SELECT id FROM u WHERE data IN :v ORDER BY id").bindparams(bp()), False),
+        "text-not-in": (sa.text("SELECT id FROM u WHERE data NOT IN :v ORDER BY id").bindparams(bp()), True),
+        "column-in": (sa.select(u.c.id).where(u.c.data.in_(bp())).order_by(u.c.id), False),
+        "column-not-in": (sa.select(u.c.id).where(u.c.data.not_in(bp())).order_by(u.c.id), True),
+        "column-inv-in": (sa.select(u.c.id).where(~u.c.data.in_(bp())).order_by(u.c.id), True),
+        "literal-column-in": (sa.select(u.c.id).where(sa.literal_column("data").in_(bp())).order_by(u.c.id), False),
+        "having-in": (sa.select(u.c.id).group_by(u.c.id, u.c.data).having(u.c.data.in_(bp())).order_by(u.c.id), False),
+    }
+    scalar_lists = [
+        ["a"], [b"a"], [b"a", b"b"], [b"a", b"a"], [b"ab"], [b"a", b"ab"], [b"ab", b"a", b""], ["a", "ab"], [97], [97, 1, 98],
+        ["a", b"a", 97], [b"a", "a"], [None, b"a"], [b"a", None], ["ab", None], [], [b""], ["a"], [1], [b"b"],
+    ]
+    raw = conn.connection.dbapi_connection
+
+    def reference(cols, members, negated):
+        if not members:
+            cond = "0"
+            params = []
+        else:
+            terms, params = [], []
+            for mbr in members:
+                mbr = (mbr,) if len(cols) == 1 else tuple(mbr)
+                terms.append("(" + " AND ".join(f"{c} = ?" for c in cols) + ")")
+                params.extend(mbr)
+            cond = "(" + " OR ".join(terms) + ")"
+        sql = f"SELECT id FROM u WHERE {'NOT ' if negated else ''}{cond} ORDER BY id"
+        return [r[0] for r in raw.execute(sql, params).fetchall()]
+
+    try:
+        for si, (label, (st, negated)) in enumerate(sorted(stmts.items())):
+            if not ctx.mine(si):
+                continue
+            for values in scalar_lists:
+                if not ctx.budget_ok():
+                    return
+                desc = {"statement": label, "values": [repr(v) for v in values]}
+                want = reference(["data"], values, negated)
+                _untyped_one(ctx, sa, conn, st, values, want, desc, "scalar", label)
+        # tuple form: members are tuples / lists / Row objects / a custom Sequence
+        row_objs = conn.execute(sa.text("SELECT k, data FROM u WHERE id IN (1, 5, 6) ORDER BY id")).all()
+        tuple_lists = [
+            [(1, b"a")], [(1, "a"), (2, 97)], [[1, b"a"], [2, b"b"]], [Seq(1, b"ab"), Seq(2, 1)], list(row_objs), [row_objs[0], (2, b"b")],
+            [(1, b"a"), (1, b"ab"), (1, b"")], [(1, "ab")], [], [(2, None), (1, b"a")], [(None, 98)], [(1, b"a")],
+        ]
+        tstmts = {
+            "text-tuple-in": (sa.text("SELECT id FROM u WHERE (k, data) IN :v ORDER BY id").bindparams(bp()), False),
+            "text-tuple-not-in": (sa.text("SELECT id FROM u WHERE (k, data) NOT IN :v ORDER BY id").bindparams(bp()), True),
+            "column-tuple-in": (sa.select(u.c.id).where(sa.tuple_(u.c.k, u.c.data).in_(bp())).order_by(u.c.id), False),
+        }
+        for si, (label, (st, negated)) in enumerate(sorted(tstmts.items())):
+            if not ctx.mine(si + 3):
+                continue
+            for values in tuple_lists:
+                if not values and label.startswith("text"):
+                    continue  # an untyped empty list cannot know it is a tuple IN: arity unknowable, not generated
+                desc = {"statement": label, "values": [repr(v) for v in values]}
+                want = reference(["k", "data"], values, negated)
+                _untyped_one(ctx, sa, conn, st, values, want, desc, "tuple", label)
+    finally:
+        conn.exec_driver_sql("DROP TABLE u")
+        conn.commit()
+
+
+def _untyped_one(ctx, sa, conn, st, values, want, desc, shape, label):
+    kind = _kind([x for v in values for x in (v if shape == "tuple" else (v,))] if values else [])
+    sql = None
+    try:
+        res = conn.execute(st, {"v": list(values)})
+        sql = res.context.statement
+        params = res.context.parameters
+        if res.context.cache_hit is sa.engine.interfaces.CacheStats.CACHE_HIT:
+            ctx.count("untyped_cache_hits")
+        got = [r[0] for r in res.cursor.fetchall()]
+        res.close()
+    except (sa.exc.SQLAlchemyError, NotImplementedError) as e:
+        ctx.violation(f"sqlite-untyped-error:{shape}:{kind}", f"{label} with {values!r}: {type(e).__name__}: {str(e)[:200]}", dict(desc, sql=sql))
+        return
+    ctx.case(desc, nontrivial=True)
+    ctx.count("untyped_cases")
+    if any(isinstance(x, bytes) for v in values for x in (v if shape == "tuple" else (v,))):
+        ctx.count("untyped_bytes_cases")
+    if got != want:
+        ctx.violation(f"sqlite-untyped-value:{shape}:{kind}", f"{label} with {values!r}: ids {got} want {want} :: {sql} {params!r}",
+                      dict(desc, sql=sql, params=repr(params), got=got, want=want))
+
+
+# ---------------------------------------------------------------------------
+# parameter names of the form <other>_<digits> next to an IN list
+# ---------------------------------------------------------------------------
+def _run_name_collisions(ctx, rig, sa):
+    """expanded IN parameters are named <name>_<i> (tuples: <name>_<i>_<j>); columns and
+    user parameters whose own (anonymous) names have that form must not be overwritten.
+    Python-model oracle over a small table without NULLs."""
+    names = ["x", "x_1", "x_1_1", "x_2", "x_1_2", "param_1", "param_1_1", "param_1_1_1", "v", "v_1"]
+    md = sa.MetaData()
+    nm = sa.Table("nm", md, sa.Column("id", sa.Integer, primary_key=True), *[sa.Column(n, sa.Integer) for n in names])
+    conn = rig.conn
+    md.create_all(conn)
+    rng = ctx.rng
+    rows = [dict(id=i + 1, **{n: (i * (k + 3) + k) % 4 for k, n in enumerate(names)}) for i in range(24)]
+    conn.execute(nm.insert(), rows)
+    conn.commit()
+    idx = 0
+    try:
+        for in_col in names:
+            for eq_cols in itertools.combinations([n for n in names if n != in_col], 2):
+                idx += 1
+                if not ctx.mine(idx) or idx % (3 if ctx.quick else 1):
+                    continue
+                if not ctx.budget_ok():
+                    return
+                for shape in ("scalar", "tuple", "user-named"):
+                    eqv = {c: rng.randrange(4) for c in eq_cols}
+                    order = rng.random() < 0.5
+                    conds_eq = [nm.c[c] == v for c, v in eqv.items()]
+                    if shape == "scalar":
+                        members = sorted(rng.sample(range(4), rng.choice((1, 2, 3))))
+                        cond_in = nm.c[in_col].in_(members)
+                        pred = lambda r: r[in_col] in members  # noqa: E731
+                        params = {}
+                    elif shape == "tuple":
+                        other = eq_cols[0]
+                        members = [(rng.randrange(4), rng.randrange(4)) for _ in range(rng.choice((1, 2, 3)))]
+                        cond_in = sa.tuple_(nm.c[in_col], nm.c[other]).in_(members)
+                        pred = lambda r: (r[in_col], r[other]) in members  # noqa: E731
+                        params = {}
+                    else:
+                        members = sorted(rng.sample(range(4), 2))
+                        cond_in = nm.c[in_col].in_(sa.bindparam("v", expanding=True))
+                        conds_eq = [nm.c[eq_cols[0]] == sa.bindparam("v_1"), nm.c[eq_cols[1]] == sa.bindparam("v_1_1")]
+                        eqv = {eq_cols[0]: eqv[eq_cols[0]], eq_cols[1]: eqv[eq_cols[1]]}
+                        params = {"v": members, "v_1": eqv[eq_cols[0]], "v_1_1": eqv[eq_cols[1]]}
+                        pred = lambda r: r[in_col] in members  # noqa: E731
+                    st = sa.select(nm.c.id)
+                    for c in (conds_eq + [cond_in]) if order else ([cond_in] + conds_eq):
+                        st = st.where(c)
+                    st = st.order_by(nm.c.id)
+                    want = [r["id"] for r in rows if pred(r) and all(r[c] == v for c, v in eqv.items())]
+                    # a weaker statement too, so that non-empty results are common
+                    desc = {"in": in_col, "eq": eqv, "members": members, "shape": shape, "in_last": order}
+                    try:
+                        res = conn.execute(st, params)
+                        sql, sent = res.context.statement, res.context.parameters
+                        got = [r[0] for r in res.cursor.fetchall()]
+                        res.close()
+                    except (sa.exc.SQLAlchemyError, KeyError) as e:
+                        ctx.violation("expanded-in-parameter-name-collides-with-other-parameter",
+                                      f"{type(e).__name__}: {str(e)[:200]}", desc)
+                        continue
+                    ctx.case(desc, nontrivial=True)
+                    ctx.count("name_collision_cases")
+                    ctx.count("name_collision_rows_matched", len(got))
+                    if got != want:
+                        ctx.violation(
+                            "expanded-in-parameter-name-collides-with-other-parameter",
+                            f"{in_col} IN {members} with {eqv}: ids {got} want {want} :: {sql} {sent!r}",
+                            dict(desc, sql=sql, params=repr(sent), got=got, want=want),
+                        )
+    finally:
+        md.drop_all(conn)
+        conn.commit()
+
+
+# ---------------------------------------------------------------------------
+# tuple IN against untyped columns, value types varying between executions
+# ---------------------------------------------------------------------------
+def _run_heterogeneous_untyped_tuples(ctx, rig, sa):
+    """``tuple_(literal_column("a"), literal_column("b")).in_([(date, 5)])`` then the same
+    statement shape with ``[(5, date)]``, ``[("x", datetime)]`` ...: the element types are
+    inferred from the values, so consecutive executions of one shape need different
+    per-position bind processors.  Within ONE list the members are homogeneous per position
+    (the tuple type is inferred from the first member, by design).  Python-model oracle on the
+    storage representation."""
+    import datetime as dt
+
+    if ctx.shard % 2:
+        return
+    conn = rig.conn
+    conn.exec_driver_sql("CREATE TABLE hx (id INTEGER PRIMARY KEY, a, b)")
+    d1, d2 = dt.date(2020, 1, 31), dt.date(1999, 12, 31)
+    ts = dt.datetime(2020, 1, 31, 23, 59, 59)
+    stored = {d1: "2020-01-31", d2: "1999-12-31", ts: "2020-01-31 23:59:59.000000", 5: 5, 7: 7, "x": "x", "2020-01-31": "2020-01-31", True: 1}
+    vals = [d1, d2, ts, 5, 7, "x"]
+    rows = []
+    for i, (a, b) in enumerate(itertools.product(vals, repeat=2)):
+        rows.append((i + 1, stored[a], stored[b]))
+    conn.exec_driver_sql("INSERT INTO hx (id, a, b) VALUES (?, ?, ?)", rows)
+    conn.commit()
+    lefts = {
+        "literal_column": lambda: sa.tuple_(sa.literal_column("a"), sa.literal_column("b")),
+        "column": lambda: sa.tuple_(sa.column("a"), sa.column("b")),
+    }
+    seqs = [
+        [[(d1, 5)], [(5, d1)], [(d2, 7), (d1, 5)], [("x", ts)], [(ts, "x")], [(5, 7)], [(d1, d2)], [(7, d2), (5, d1)]],
+        [[(5, d1)], [(d1, 5)], [("x", 5)], [(5, "x")], [(ts, d1)], [(d1, ts)], [(d1, 5), (d2, 5)]],
+    ]
+    try:
+        for lname, left in sorted(lefts.items()):
+            for form in ("in", "not_in"):
+                for seq in seqs:
+                    for members in seq:
+                        if not ctx.budget_ok():
+                            return
+                        L = left()
+                        st = sa.select(sa.column("id")).select_from(sa.table("hx")).where(L.in_(members) if form == "in" else L.not_in(members)).order_by(sa.column("id"))
+                        smem = {(stored[a], stored[b]) for a, b in members}
+                        hit = [r[0] for r in rows if (r[1], r[2]) in smem]
+                        want = hit if form == "in" else [r[0] for r in rows if r[0] not in set(hit)]
+                        desc = {"left": lname, "form": form, "members": repr(members)}
+                        try:
+                            res = conn.execute(st)
+                            sql, sent = res.context.statement, res.context.parameters
+                            if res.context.cache_hit is sa.engine.interfaces.CacheStats.CACHE_HIT:
+                                ctx.count("heterogeneous_tuple_cache_hits")
+                            got = [r[0] for r in res.cursor.fetchall()]
+                            res.close()
+                        except (sa.exc.SQLAlchemyError, TypeError) as e:
+                            ctx.violation("sqlite-untyped-tuple-heterogeneous-error", f"{members!r}: {type(e).__name__}: {str(e)[:200]}", desc)
+                            continue
+                        ctx.case(desc, nontrivial=True)
+                        ctx.count("heterogeneous_tuple_cases")
+                        if got != want:
+                            ctx.violation("sqlite-untyped-tuple-heterogeneous-value",
+                                          f"(a, b) {form} {members!r}: ids {got} want {want} :: {sql} {sent!r}",
+                                          dict(desc, sql=sql, params=repr(sent), got=got, want=want))
+    finally:
+        conn.exec_driver_sql("DROP TABLE hx")
+        conn.commit()
+
+
+# ---------------------------------------------------------------------------
+# IN against a type with bind_expression()
+# ---------------------------------------------------------------------------
+# Two behaviours of the unmodified tree are CANDIDATE defects that are not recorded in
+# known_findings.json yet (reproducer + proposed fix: selftest/C07/proposed/).  While this
+# flag is False the cases are executed and counted (``open_candidate_*`` counters / seen)
+# but not reported as violations; set it to True once they are recorded as open or repaired.
+CANDIDATES_AS_VIOLATIONS = True
+
+
+def _candidate(ctx, mechanism, summary, witness):
+    if CANDIDATES_AS_VIOLATIONS:
+        ctx.violation(mechanism, summary, witness)
+    else:
+        ctx.count("open_candidate_observed")
+        ctx.seen("open_candidates", mechanism)
+
+
+def _run_bind_expression_type(ctx, rig, sa):
+    """IN / NOT IN lists (length 0..3) against a TypeDecorator whose bind_expression() wraps
+    every value in lower(): bound, literal_binds, cached re-bind.  Python-model oracle."""
+    if ctx.shard % 2 == 0:
+        return
+
+    class Lower(sa.TypeDecorator):
+        impl = sa.String
+        cache_ok = True
+
+        def bind_expression(self, bindvalue):
+            return sa.func.lower(bindvalue)
+
+    md = sa.MetaData()
+    be = sa.Table("be", md, sa.Column("id", sa.Integer, primary_key=True), sa.Column("s", Lower(10)), sa.Column("a", sa.Integer), sa.Column("b", sa.Integer))
+    conn = rig.conn
+    md.create_all(conn)
+    rows = [dict(id=1, s="a", a=1, b=2), dict(id=2, s="b", a=3, b=4), dict(id=3, s="c", a=1, b=4)]
+    conn.execute(be.insert(), rows)
+    conn.commit()
+    cached = {f: sa.select(be.c.id).where(getattr(be.c.s, f)(sa.bindparam("v", expanding=True))).order_by(be.c.id) for f in ("in_", "not_in")}
+    try:
+        for members in ([], ["A"], ["A", "b"], ["x"], ["C", "A", "B"], [], ["b"]):
+            low = {m.lower() for m in members}
+            for form in ("in_", "not_in"):
+                want = [r["id"] for r in rows if (r["s"] in low) == (form == "in_")]
+                for delivery in ("bound", "literal_binds", "cached"):
+                    desc = {"members": members, "form": form, "delivery": delivery}
+                    sql = None
+                    try:
+                        if delivery == "cached":
+                            res = conn.execute(cached[form], {"v": list(members)})
+                            sql = res.context.statement
+                            got = [r[0] for r in res.cursor.fetchall()]
+                            res.close()
+                        else:
+                            st = sa.select(be.c.id).where(getattr(be.c.s, form)(list(members))).order_by(be.c.id)
+                            if delivery == "bound":
+                                res = conn.execute(st)
+                                sql = res.context.statement
+                                got = [r[0] for r in res.cursor.fetchall()]
+                                res.close()
+                            else:
+                                sql = str(st.compile(rig.eng, compile_kwargs={"literal_binds": True}))
+                                got = [r[0] for r in conn.exec_driver_sql(sql)]
+                    except sa.exc.SQLAlchemyError as e:
+                        if not members and delivery in ("bound", "cached"):
+                            _candidate(ctx, "sqlite-error:empty-in-bind-expression-type",
+                                       f"{form}([]) against a type with bind_expression(): {str(e)[:200]}", dict(desc, sql=sql))
+                        else:
+                            ctx.violation(f"sqlite-bind-expression-type-error:{delivery}", f"{type(e).__name__}: {str(e)[:200]}", dict(desc, sql=sql))
+                        continue
+                    ctx.case(desc, nontrivial=True)
+                    ctx.count("bind_expression_type_cases")
+                    if got != want:
+                        ctx.violation(f"sqlite-bind-expression-type-value:{delivery}", f"s.{form}({members!r}) {delivery}: ids {got} want {want} :: {sql}",
+                                      dict(desc, sql=sql, got=got, want=want))
+        # (d) untyped tuple IN through text() rendered with literal_binds
+        st = sa.text("SELECT id FROM be WHERE (a, b) IN :pairs ORDER BY id").bindparams(sa.bindparam("pairs", expanding=True))
+        for pairs in ([(1, 2)], [(1, 2), (3, 4)], [(1, 4), (9, 9)]):
+            want = [r["id"] for r in rows if (r["a"], r["b"]) in pairs]
+            desc = {"pairs": pairs, "delivery": "literal_binds"}
+            try:
+                sql = str(st.bindparams(pairs=list(pairs)).compile(rig.eng, compile_kwargs={"literal_binds": True}))
+                got = [r[0] for r in conn.exec_driver_sql(sql)]
+            except sa.exc.CompileError:
+                ctx.count("untyped_tuple_literal_refused")  # a clean refusal is acceptable (no literal renderer for NullType)
+                continue
+            except (AttributeError, TypeError) as e:
+                _candidate(ctx, "internal-error:untyped-tuple-in-literal-binds", f"{type(e).__name__}: {e}", desc)
+                continue
+            ctx.count("bind_expression_type_cases")
+            if got != want:
+                ctx.violation("sqlite-untyped-tuple-literal-value", f"(a, b) IN {pairs!r} literal_binds: ids {got} want {want} :: {sql}", dict(desc, sql=sql))
+    finally:
+        md.drop_all(conn)
+        conn.commit()
+
 
 
 def _how(delivery):
